@@ -180,6 +180,11 @@ def coll_cmds(rng, h, n, arrays=None, tries=True, fail=False):
             cmds.append("drain %d" % rng.choice(fav))
         if rng.random() < 0.05:
             cmds.append(around_max(rng, rng.choice(fav), arrays))
+        if rng.random() < 0.04 and not h["member"]:
+            # more alignment than the size guarantees (still at most max_alignment): must be refused
+            big = [a for a in (2, 4, 8, 16) if a > alignment_for(sz)]
+            if big:
+                cmds.append("an %d %d" % (sz, rng.choice(big)))
     cmds.append("nofail")
     cmds += ["drain %d" % f for f in fav]
     return cmds
